@@ -1775,6 +1775,9 @@ class unyt_array(np.ndarray):
         if getattr(ret, "shape", None) == ():
             ret = unyt_quantity(ret, bypass_validation=True, name=self.name)
             ret.units = self.units
+        elif isinstance(ret, unyt_quantity) and ret.size > 1:
+            # an index array picked the one element of a quantity several times
+            ret = ret.view(unyt_array)
         return ret
 
     def __setitem__(self, item, value):
